@@ -359,18 +359,19 @@ FIELDS = {
     ],
     'mask_ipv4': [
         dict(file=P_MASK, path=['NetMask', 'make_netmask'], var='value', gates=['not str(string).isdigit()'],
-             consts={'maximum': 32}, uses=['value = int(string)', 'klass = cls(value)'], must_use=['value = int(string)']),
+             consts={'maximum': 32}, uses=['value = int(string)', 'klass = cls(value)', 'klass = int.__new__(cls, value)'], must_use=['value = int(string)']),
     ],
     'mask_ipv6': [
         dict(file=P_MASK, path=['NetMask', 'make_netmask'], var='value', gates=['not str(string).isdigit()'],
-             consts={'maximum': 128}, uses=['value = int(string)', 'klass = cls(value)'], must_use=['value = int(string)']),
+             consts={'maximum': 128}, uses=['value = int(string)', 'klass = cls(value)', 'klass = int.__new__(cls, value)'], must_use=['value = int(string)']),
     ],
     'flow_mask_ipv4': [
         dict(file=P_FLOW, path=['IPrefix4', 'make_prefix4'], var='netmask',
              uses=['packed = bytes([netmask]) + raw[:CIDR.size(netmask)]']),
     ],
     'flow_mask_ipv6': [
-        dict(file=P_FLOW, path=['IPrefix6', 'make_prefix6'], var='netmask',
+        # (a test relating the offset to the prefix length is about the offset, written 0 by the grammar's plain form)
+        dict(file=P_FLOW, path=['IPrefix6', 'make_prefix6'], var='netmask', ignore_tests=['not 0 <= offset <= netmask'],
              uses=['packed = bytes([netmask]) + raw[:CIDR.size(netmask)]']),
     ],
 }
